@@ -472,7 +472,8 @@ def executed_paths(model, run):
     return sorted(out)
 
 
-FILTER_ALPHABET = ["ign", "^zoo::f00", "a_", "g_t", "inherited", "::1$", "m::", "(TA|x)$", "zoo::nest::a::same", "Shown As"]
+# (the last two contain a comma: a repetition range and a tuple type's label)
+FILTER_ALPHABET = ["ign", "^zoo::f00", "a_", "g_t", "inherited", "::1$", "m::", "(TA|x)$", "zoo::nest::a::same", "Shown As", "^zo{1,2}::f0[0-2]", r"\(u8, zoo::TA\)$"]
 
 
 # Patterns that match an inner node (a module path, a group's Rust name that its display name
@@ -508,7 +509,7 @@ def filter_sets(tier, model):
                 sets.append(((a, b), (c, d), False))
     # exact filters: whole paths (a case, a case with argument, an inner node, a non-path)
     paths = [c["path"] for c in model["cases"]]
-    ex = [paths[0], paths[len(paths) // 3], next(p for p in paths if p.endswith("::1")), "zoo::ign::ig", "zoo", "nothing"]
+    ex = [paths[0], paths[len(paths) // 3], next(p for p in paths if p.endswith("::1")), "zoo::ign::ig", "zoo", "nothing", next(p for p in paths if p.endswith("(u8, zoo::TA)"))]
     for e in ex:
         sets.append(((e,), (), True))
         sets.append(((), (e,), True))
